@@ -7,5 +7,8 @@ LAYOUTS = [
     ('LF-COMMENT', '\n/*c*/ '), ('COMMENT-LF', ' /*c*/\n'),
     ('LINE-COMMENT', ' //c\n'), ('CR', '\r'), ('CRLF', '\r\n'),
     ('LS', '\u2028'), ('PS', '\u2029'), ('COMMENT', ' /*c*/ '),
+    # a comment whose only line terminator is not LF
+    ('LS-COMMENT', ' /*x\u2028y*/ '), ('PS-COMMENT', ' /*\u2029*/ '),
+    ('CR-COMMENT', ' /*\r*/ '),
 ]
 BY_NAME = dict(LAYOUTS)
